@@ -1587,35 +1587,55 @@ func selectResponse(m *spec.Method, result any) *spec.Response {
 }
 
 
+// sameNestedTypeTwoViews reports whether rendering some view of x runs into the
+// recorded projection defect (known_findings: view:same-nested-type-under-two-views).
+// It replays what expr.projectRecursive does with its memo: a nested result-type
+// attribute is LOOKED UP under (its type, the enclosing view) but STORED under
+// (its type, its own view). A later attribute of the same nested type is therefore
+// handed an earlier attribute's projection exactly when that earlier attribute's own
+// view is named like the later one's enclosing view - and that is wrong when the
+// later attribute asks for another view. Any other way for two attributes of one
+// nested type to end up with each other's view is NOT this finding.
 func sameNestedTypeTwoViews(d *spec.Design, x *spec.UserType) bool {
-	return sameNestedTypeTwoViewsRec(d, x, map[string]bool{})
-}
-
-func sameNestedTypeTwoViewsRec(d *spec.Design, x *spec.UserType, seenT map[string]bool) bool {
-	if x == nil || seenT[x.Name] {
+	if x == nil {
 		return false
 	}
-	seenT[x.Name] = true
-	// the same shape one level down (a nested result type that itself holds the two attributes)
-	for _, f := range x.Attr.Type.Fields {
-		if f.Type.Kind == spec.User {
-			if nu := d.UserType(f.Type.Name); nu != nil && nu.IsResult && sameNestedTypeTwoViewsRec(d, nu, seenT) {
-				return true
-			}
+	for _, top := range x.Views {
+		seen := map[string]bool{}
+		if memoHit(d, x, top.Name, seen, 0) {
+			return true
 		}
 	}
-	for _, vw := range append([]*spec.View{nil}, x.Views...) {
-		seen := map[string]string{}
-		for _, f := range x.Attr.Type.Fields {
-			if f.Type.Kind == spec.User {
-				if nu := d.UserType(f.Type.Name); nu != nil && nu.IsResult {
-					nv := vw.NestedView(f)
-					if v, ok := seen[nu.Name]; ok && v != nv {
-						return true
-					}
-					seen[nu.Name] = nv
-				}
+	return false
+}
+
+func memoHit(d *spec.Design, u *spec.UserType, view string, seen map[string]bool, depth int) bool {
+	vw := gen.ViewOf(u, view)
+	if vw == nil || depth > 8 {
+		return false
+	}
+	for _, name := range vw.Fields {
+		f := u.Attr.Type.Field(name)
+		if f == nil || f.Type.Kind != spec.User {
+			continue
+		}
+		nu := d.UserType(f.Type.Name)
+		if nu == nil || !nu.IsResult {
+			continue
+		}
+		own := vw.NestedView(f)
+		if own == "" {
+			own = "default"
+		}
+		if seen[nu.Name+"::"+view] {
+			if own != view {
+				return true // handed the projection stored by an earlier attribute whose own view is `view`
 			}
+			continue
+		}
+		seen[nu.Name+"::"+own] = true
+		if memoHit(d, nu, own, seen, depth+1) {
+			return true
 		}
 	}
 	return false
